@@ -1226,6 +1226,8 @@ pub fn catalogue() -> Vec<Scenario> {
         scn!("K1-two-wakes", ["C23"], || k_scn(2, false, false)),
         scn!("K1-one-wake-cancel", ["C23", "C22"], || k_scn(1, false, true)),
         scn!("K2-wake-with-waitable", ["C23", "C22", "C18"], || k_scn(1, true, false)),
+        scn!("K2-two-wakes-with-waitable", ["C23", "C22"], || k_scn(2, true, false)),
+        scn!("K2-three-wakes-with-waitable", ["C23"], || k_scn(3, true, false)),
         scn!("K3-wake-from-other-task", ["C23", "C22"], || k3_scn(1, false)),
         scn!("K3-wake-from-other-task-cancel", ["C23"], || k3_scn(2, true)),
         scn!("W5-blob-write_one", ["C19"], || {
